@@ -669,34 +669,37 @@ Lemma rl_loop_shape block size C :
   0 <= todo s -> find_crlf line = None -> len line <= size ->
   len line + len (buf s) + todo s <= C ->
   rl_loop fuel block size line s q = Ok r s' q' ->
-  shape r /\
+  shape r /\ len r <= size /\
   (ends_crlf r \/ (len r = size /\ (C <= size -> exhausted s')) \/
    exhausted s' \/ dry q').
 Proof.
   intros Hb.
   assert (forall line s, 0 <= todo s -> find_crlf line = None -> len line <= size ->
           len line + len (buf s) + todo s <= C -> size <= len line ->
-          shape line /\
+          shape line /\ len line <= size /\
           (ends_crlf line \/ (len line = size /\ (C <= size -> exhausted s)) \/
            exhausted s \/ False)) as Hexit.
-  { intros line s Ht Hf Hl HC Hge. split; [left; exact Hf|].
+  { intros line s Ht Hf Hl HC Hge. split; [left; exact Hf|]. split; [exact Hl|].
     right. left. split; [lia|]. intros HCs.
     pose proof (len_nonneg (buf s)). destruct s as [b t f]. cbn [buf todo] in *.
     apply exhausted_intro; lia. }
   induction fuel as [|fuel IH]; intros line s q r s' q' Ht Hf Hl HC.
   - cbn [rl_loop]. destruct (len line <? size) eqn:El; [discriminate|].
     intros [= <- <- <-].
-    destruct (Hexit line s Ht Hf Hl HC ltac:(lia)) as (H1 & H2). split; [exact H1|]. tauto.
+    destruct (Hexit line s Ht Hf Hl HC ltac:(lia)) as (H1 & H0 & H2).
+    split; [exact H1|]. split; [exact H0|]. tauto.
   - cbn [rl_loop]. destruct (len line <? size) eqn:El.
     2:{ intros [= <- <- <-].
-        destruct (Hexit line s Ht Hf Hl HC ltac:(lia)) as (H1 & H2). split; [exact H1|]. tauto. }
+        destruct (Hexit line s Ht Hf Hl HC ltac:(lia)) as (H1 & H0 & H2).
+        split; [exact H1|]. split; [exact H0|]. tauto. }
     destruct (ends_cr line && starts_lf (buf s)) eqn:Ediv.
     { intros [= <- <- <-]. apply andb_true_iff in Ediv as [Hcr _].
       apply ends_cr_inv in Hcr as (p & Hp).
       assert (line ++ [10] = p ++ [13; 10]) as E
           by (rewrite Hp, <- app_assoc; reflexivity).
-      split.
+      split; [|split].
       - right. exists p. split; [exact E|]. rewrite <- Hp. exact Hf.
+      - rewrite len_app. change (len [10]) with 1. lia.
       - left. exists p. exact E. }
     set (m := size - len line) in *.
     destruct (find_crlf (take m (buf s))) as [pos|] eqn:Ef.
@@ -713,7 +716,10 @@ Proof.
       rewrite E.
       assert (line ++ a ++ [13; 10] = (line ++ a) ++ [13; 10]) as E2
           by (rewrite app_assoc; reflexivity).
-      split.
+      assert (len (a ++ [13; 10]) <= m) as Hwin.
+      { pose proof (len_take m (buf s)) as Hlt. rewrite Htk, !len_app in Hlt.
+        rewrite len_app. pose proof (len_nonneg c). lia. }
+      split; [|split].
       - right. exists (line ++ a). split; [exact E2|].
         rewrite <- app_assoc. apply find_none_app.
         split; [exact Hf|]. split; [exact Hna|].
@@ -725,6 +731,7 @@ Proof.
           rewrite <- E3.
           destruct (starts_lf (take m (buf s))) eqn:E4; [|reflexivity].
           apply starts_lf_take in E4. congruence.
+      - rewrite len_app. lia.
       - left. exists (line ++ a). exact E2. }
     (* no CRLF in the window: move it to the line *)
     assert (find_crlf (line ++ take m (buf s)) = None) as Hf'.
@@ -745,7 +752,7 @@ Proof.
     rewrite Hall in *. rewrite Hnone.
     set (n_size := Z.min (Z.min (todo s) (size - len (line ++ buf s))) block).
     destruct (n_size =? 0) eqn:En.
-    { intros [= <- <- <-]. split; [left; exact Hf'|].
+    { intros [= <- <- <-]. split; [left; exact Hf'|]. split; [exact Hl'|].
       right. right. left. apply exhausted_intro; [reflexivity|]. subst n_size. lia. }
     destruct (s_read n_size (src s)) as [data f] eqn:Er.
     pose proof (s_read_spec _ _ _ _ Er) as (_ & Hlen & _).
@@ -753,7 +760,7 @@ Proof.
     cbv zeta. destruct (nonempty data) eqn:Ed; cbn [negb].
     + apply IH; cbn [buf todo]; try assumption; [lia|].
       rewrite len_app in *. lia.
-    + intros [= <- <- <-]. split; [left; exact Hf'|].
+    + intros [= <- <- <-]. split; [left; exact Hf'|]. split; [exact Hl'|].
       right. right. right. exists q, n_size.
       apply nonempty_false in Ed. rewrite Ed. reflexivity.
 Qed.
@@ -762,13 +769,15 @@ Theorem readline_line fuel block size s r s' q :
   1 <= block -> 0 <= todo s ->
   readline fuel block size s = Ok r s' q ->
   (forall i, crlf_at r i -> (i + 2)%nat = List.length r) /\
+  (0 <= size -> len r <= size) /\
   (ends_crlf r \/ (0 <= size /\ len r = size) \/ exhausted s' \/ dry q).
 Proof.
   intros Hb Ht H. unfold readline in H.
   apply rl_loop_shape with (C := len (buf s) + todo s) in H;
     try assumption; try reflexivity;
     [|rewrite len_nil; first [apply eff_size_nonneg; exact Ht | lia] ..].
-  - destruct H as (Hs & Hc). split; [apply shape_only_end; exact Hs|].
+  - destruct H as (Hs & Hle & Hc). split; [apply shape_only_end; exact Hs|].
+    split. { intros H0. unfold eff_size in Hle. destruct (Z.ltb_spec size 0); lia. }
     destruct Hc as [Hc|[(Hc1 & Hc2)|Hc]]; [left; exact Hc| |right; right; exact Hc].
     unfold eff_size in *. destruct (Z.ltb_spec size 0).
     + right. right. left. apply Hc2. lia.
@@ -897,12 +906,28 @@ Proof.
   rewrite Hp, E, app_nil_r. reflexivity.
 Qed.
 
+(* read(size) with size >= 0 returns at most size bytes *)
+Theorem read_within_limit block size s r s' q :
+  0 <= size -> read block size s = Ok r s' q -> len r <= size.
+Proof.
+  intros Hs. unfold read. replace (size <? 0) with false by lia.
+  set (sz := Z.min (todo s + len (buf s)) size).
+  destruct (nonempty (buf s)).
+  - destruct (len (buf s) >=? sz) eqn:Ec.
+    + intros [= <- _ _]. rewrite len_take. subst sz. lia.
+    + destruct (s_read _ (src s)) as [data f] eqn:Er. intros [= <- _ _].
+      apply s_read_spec in Er as (_ & Hl & _). rewrite len_app. subst sz. lia.
+  - destruct (s_read _ (src s)) as [data f] eqn:Er. intros [= <- _ _].
+    apply s_read_spec in Er as (_ & Hl & _). subst sz. lia.
+Qed.
+
 (* (3) and (4) after any history *)
 Theorem reader_lines body n block shorts fuel cs rs s ok k r s' q :
   0 <= n -> 1 <= block ->
   run fuel block cs (init body n shorts) = (rs, s, ok) ->
   readline fuel block k s = Ok r s' q ->
   (forall i, crlf_at r i -> (i + 2)%nat = List.length r) /\
+  (0 <= k -> len r <= k) /\
   (ends_crlf r \/ (0 <= k /\ len r = k) \/ exhausted s' \/
    exists q0 j, q = q0 ++ [(j, 0)]).
 Proof.
